@@ -19,15 +19,16 @@ Code modelled (as read in /repo):
   (signed by the funder seeds only, `invoke()` when the funder has none), `Allocate`, `Assign`
   (both signed by the account seeds only).
 * `account.rs` 339-368 / `borsh_account.rs` 313-339 `init_account::<IF_NEEDED>`:
-  `needs_init = owner == System || data[..W].all(0)` (slice panic when `data.len() < W` and the
-  owner is not System), `check_writable`, `system_create_account(funder, OwnerProgram::ID, space)`,
+  `needs_init = owner == System || data.get(..W).ok_or(AccountDataTooSmall)?.all(0)` (as repaired
+  by d51f9cb: `data.len() < W` with a non-System owner is an error, nothing changes), `check_writable`, `system_create_account(funder, OwnerProgram::ID, space)`,
   then zero-copy: `AccountDiscriminant::<T>::init` writes `disc ++ encode(v)` over the first
   `space` bytes; borsh: writes `disc` over the first `W` bytes and caches the value (written by
   `serialize()` at cleanup: `resize(W + len)`, then the value after the discriminant).
 * `init.rs` 20-75: `init_seeds`, then `init_account`, then `needed_init.set`, then the wrapped
   field's own validation (`Seeded`: seeds already set → nothing; `Account`/`BorshAccount`:
   `validate_account_info` = discriminant then owner; `Signer`: `check_signer` AFTER the inner).
-* `seeded.rs` 241-255, 309-340: `find_program_address(seeds(), program)` (`None` → panic), address
+* `seeded.rs` (after 801ca3a): `find_program_address(without_bump_placeholder(seeds()), program)`
+  — a trailing empty slot is dropped before the search (`None` → panic), address
   must equal the account key, the recorded `seeds_with_bump` are the account seeds of the init.
 * funder from the argument, or `ctx.get_funder()` (`EmptyFunderCache` when missing; looked up
   BEFORE the if-needed test).
@@ -173,7 +174,7 @@ def initAccount (env : Env) (ty : AcctType) (ifNeeded : Bool) (tgt : Key) (f : F
     (acctSeeds : Option (List (List Nat))) (enc : List Nat) (s : St) : Res Bool × St :=
   if ifNeeded then
     if (s.w tgt).owner = systemId then initGo env ty tgt f acctSeeds enc s
-    else if (s.w tgt).data.length < ty.W then (.panic, s)
+    else if (s.w tgt).data.length < ty.W then (.err .accountDataTooSmall, s)
     else if allZero ((s.w tgt).data.take ty.W) then initGo env ty tgt f acctSeeds enc s
     else (.ok false, s)
   else initGo env ty tgt f acctSeeds enc s
@@ -207,7 +208,7 @@ def FunderArg.resolve : FunderArg → Option Funder
 def initSeeds (env : Env) : Target → Res (Option (List (List Nat)))
   | .signer _ => .ok none
   | .seeded k ss =>
-    match Account.Seeds.find env.H ss env.program with
+    match Account.Seeds.find env.H (Account.Seeds.dropTrailingEmpty ss) env.program with
     | none => .panic
     | some (addr, bump) =>
       if addr = k then .ok (some (Account.Seeds.seedsWithBump ss bump)) else .err .addressMismatch
